@@ -395,7 +395,13 @@ def modules_come_from_the_parser(ctx, rid):
     def is_parse(c):
         return c.name == "std::panic::catch_unwind" or c.name.endswith("::parse_mod") or c.name.endswith("new_parser_from_file")
     try:
-        paths = explore(f, is_effect=is_parse, pure=lambda c: not is_parse(c), max_paths=20000, program=p)
+        def acceptance_helper(c):
+            # a private helper of the parser module that turns the parsed value into the Result (it runs no parser itself)
+            h = p.fns.get(c.name)
+            return h is not None and h.id.startswith("rustfmt_nightly::parse::parser::") and "ParserError" in h.locals[0] \
+                and h.id != f.id and not any(is_parse(x) for x in h.calls())
+        paths = explore(f, is_effect=is_parse, pure=lambda c: not is_parse(c) and not acceptance_helper(c), max_paths=20000,
+                        program=p, inline="auto")
     except TooManyPaths as e:
         r.undecidable(rid, str(e))
         return
